@@ -23,15 +23,16 @@ from hypothesis import strategies as st
 
 from pbt import scenes
 from pbt.engine import Skip, Sub
+from pbt.oracles.longsims import collect
 
 ID = "C12"
 RULE = (
-    "Hypothesis draws: interior box 16..24 cells per axis (not cubic), an independent PML thickness 8..20 for each of "
-    "the six faces, one source (electric / magnetic point dipole with axis polarisation 0..2 and optional "
+    "Hypothesis draws: interior box 16..24 cells per axis (16..18 in the quick tier, not cubic), two PML thicknesses "
+    "from 8..20 per scene and one of the two for each of the six faces, one source (electric / magnetic point dipole with axis polarisation 0..2 and optional "
     "azimuth/elevation tilt, or a uniform / Gaussian plane source with any of the 6 axis-direction pairs, a "
     "transverse polarisation angle and a finite aperture) placed by explicit grid coordinates >= 3 cells from every "
     "layer (biased to sit exactly 3 cells from 1..3 faces), a zero-net-charge pulse (sampled first or second "
-    "derivative of a Gaussian whose spectral peak sits at 15..30 cells per wavelength, antisymmetric / mean-subtracted "
+    "derivative of a Gaussian whose spectral peak sits at 15..30 (quick: 15..20) cells per wavelength, antisymmetric / mean-subtracted "
     "so that the samples sum to 0 and both end samples are 0), a field-detector box >= 3 cells from the layers, "
     "courant factor 0.99 or 0.7. Every case is one full absorption measurement (small run + large free-space "
     "reference run) and is non-trivial when the interior energy peak is > 0 and the reference record is non-zero. "
@@ -47,8 +48,9 @@ ASSUMPTIONS = [
     "value is the max of the last 5 samples",
     "'much larger reference domain' = plain zero-halo domain whose walls are outside the light cone of the comparison "
     "window (axis speed courant/sqrt(3) cells per step, +3 cells); the window is the time for an echo from the "
-    "outer wall of the farthest layer to return, capped at 200 (f32) / 120 (f64) steps for cost — cases whose window "
-    "was capped are labelled window=capped",
+    "outer wall of the farthest layer to return, capped for cost at pulse length + K cells of travel (quick: K = 44 "
+    "f32 / 34 f64; thorough: 90 / 60) — cases whose window was capped are labelled window=capped; the echo of every "
+    "face whose round trip is shorter than K is inside",
     "vacuum background (the default sigma grading assumes the vacuum impedance); float32 and float64 lanes use the "
     "same thresholds 1e-6 / 1e-4",
 ]
@@ -77,8 +79,12 @@ def _pulse(sigma, order):
 
 @st.composite
 def case_strategy(draw, ctx):
-    inner = [draw(st.integers(16, 24)) for _ in range(3)]
-    pml = {f: draw(st.integers(8, 20)) for f in scenes.FACES}
+    quick = ctx.tier == "quick"
+    inner = [draw(st.integers(16, 18 if quick else 24)) for _ in range(3)]
+    # two thicknesses per scene, each face takes one of them (keeps the number of distinct array shapes — and
+    # with it the XLA compile time of the six layers — down without losing the 8..20 range)
+    tpair = [draw(st.integers(8, 20)), draw(st.integers(8, 20))]
+    pml = {f: tpair[draw(st.integers(0, 1))] for f in scenes.FACES}
     kind = draw(st.sampled_from(["dipole_e", "dipole_m", "dipole_e", "dipole_m", "uniform_plane", "gaussian_plane"]))
     # positions in interior coordinates; "touch" faces get the minimum distance of 3 cells
     n_touch = draw(st.integers(0, 3))
@@ -124,10 +130,13 @@ def case_strategy(draw, ctx):
         "inner": inner,
         "pml": pml,
         "source": src,
-        "pulse": {"wl_cells": draw(st.sampled_from([15.0, 18.0, 20.0, 25.0, 30.0])),
+        "pulse": {"wl_cells": draw(st.sampled_from([15.0, 18.0, 20.0] if quick else [15.0, 18.0, 20.0, 25.0, 30.0])),
                   "order": draw(st.sampled_from([1, 1, 2]))},
         "det": {"lo": dlo, "hi": dhi, "exact": draw(st.booleans())},
         "courant": draw(st.sampled_from([0.99, 0.99, 0.99, 0.7])),
+        # cost cap on the comparison window (cells of travel after the pulse has been emitted); part of the case so
+        # that replays are tier independent
+        "window_cap": (44 if ctx.lane == "f32" else 34) if quick else (90 if ctx.lane == "f32" else 60),
     }
 
 
@@ -181,8 +190,7 @@ def plan(case, lane):
     n_small = [inner[a] + tlo[a] + thi[a] for a in range(3)]
     t_total = plen + int(math.ceil(2.5 * max(n_small) / v))
     t_echo = plen + int(math.ceil(2.0 * max(inner[a] + max(tlo[a], thi[a]) for a in range(3)) / v))
-    cap = 200 if lane == "f32" else 120
-    t_cmp = min(t_echo, cap, t_total)
+    t_cmp = min(t_echo, plen + int(math.ceil(case.get("window_cap", 60) / v)), t_total)
     slo, shi = _src_extent(case)
     dlo, dhi = case["det"]["lo"], case["det"]["hi"]
     reach = v * t_cmp
@@ -293,8 +301,15 @@ def body(ctx, case):
               observed=rel, expected="< 1e-4", tolerance=1e-4)
 
 
+def cases(ctx):
+    """A Hypothesis-drawn sample (seeded by the run seed and the lane), enumerated so that the engine shards it:
+    quick = 8 scenes per lane (two per worker process), thorough = 64 (f32, 4 workers) / 60 (f64, 12 workers)."""
+    n = 8 if ctx.tier == "quick" else (64 if ctx.lane == "f32" else 60)
+    return collect(case_strategy(ctx), n, ctx.seed, salt=f"C12/{ctx.lane}/{ctx.tier}")
+
+
 SUBS = [
-    Sub(name="absorb", body=body, strategy=lambda ctx: case_strategy(ctx), quick=12, thorough=120,
-        lanes=("f64", "f32"), f32_fraction=0.6, quick_shards=4, max_seconds_quick=140.0, max_seconds_thorough=1500.0,
+    Sub(name="absorb", body=body, cases=cases, lanes=("f64", "f32"), quick_shards=4, exhaustive=False,
+        max_seconds_quick=140.0, max_seconds_thorough=1500.0,
         rule="PML on six faces vs a light-cone-free reference domain; residual interior energy and record difference"),
 ]
